@@ -52,6 +52,9 @@ enum Tamper {
     ToRrdpTree { ca: String, notify: String },
     /// wait until `secs` seconds after the build instant + 1 h (real expiry of short-lived certificates)
     SleepUntil { secs: i64 },
+    /// an RRDP archive of the repository `notify` in the collector's directory, made by the real writer; its
+    /// best-before time lies one hour in the past (`expired`) or in the future
+    PlantArchive { notify: String, expired: bool },
 }
 
 #[derive(Serialize, Deserialize, Clone, Debug)]
@@ -62,6 +65,10 @@ struct Last {
     no_update: bool,
     /// engine.start(report, true): quick initial validation from the store only; fails on a new publication point
     initial: bool,
+    /// the RRDP transport is enabled (no CA of the generated repositories announces RRDP, so nothing is fetched with
+    /// it; the collector exists and takes part in the cleanup)
+    #[serde(default)]
+    rrdp: bool,
 }
 
 #[derive(Serialize, Deserialize, Clone, Debug)]
@@ -88,8 +95,11 @@ struct Listing {
     tmp: Vec<String>,
     /// top-level entries of <cache>/rsync: (name, None = file | Some(entries))
     rsync: Vec<(String, Option<Vec<String>>)>,
-    /// everything below <cache>/rrdp (the RRDP transport is off in these runs: expected to stay empty)
+    /// everything below <cache>/rrdp: top-level files; the entries of `tmp`; per authority directory its entries
+    /// (file: Some(Some(notify)) = an archive the real reader opens, Some(None) = a file it does not; None = directory)
     rrdp: Vec<String>,
+    rrdp_tmp: Option<Vec<String>>,
+    rrdp_auth: Vec<(String, Vec<(String, Option<Option<String>>)>)>,
 }
 
 fn walk(dir: &Path, base: &Path, out: &mut Vec<(String, PathBuf)>) {
@@ -146,9 +156,30 @@ fn listing(cache: &Path) -> Listing {
             } else { l.rsync.push((name, None)); }
         }
     }
-    let mut files = Vec::new();
-    walk(&cache.join("rrdp"), cache, &mut files);
-    l.rrdp = files.into_iter().map(|f| f.0).collect();
+    if let Ok(rd) = std::fs::read_dir(cache.join("rrdp")) {
+        let mut tops: Vec<PathBuf> = rd.flatten().map(|e| e.path()).collect();
+        tops.sort();
+        for p in tops {
+            let name = p.file_name().unwrap().to_string_lossy().to_string();
+            if !p.is_dir() { l.rrdp.push(format!("rrdp/{}", name)); continue }
+            let mut subs: Vec<PathBuf> = std::fs::read_dir(&p).map(|rd| rd.flatten().map(|e| e.path()).collect()).unwrap_or_default();
+            subs.sort();
+            if name == "tmp" { l.rrdp_tmp = Some(subs.iter().map(|q| format!("rrdp/tmp/{}", q.file_name().unwrap().to_string_lossy())).collect()); continue }
+            let mut es = Vec::new();
+            for q in subs {
+                let rel = format!("rrdp/{}/{}", name, q.file_name().unwrap().to_string_lossy());
+                if q.is_dir() { es.push((rel, None)); continue }
+                // what the real reader makes of the file (a copy is opened: opening a corrupt archive removes it)
+                let copy = std::env::temp_dir().join(format!("c40-archive-{}-{}", std::process::id(), es.len()));
+                let _ = std::fs::copy(&q, &copy);
+                let notify = routinator::collector::RrdpArchive::open(std::sync::Arc::new(copy.clone())).ok()
+                    .and_then(|a| a.load_state().ok()).map(|st| st.rpki_notify.to_string());
+                let _ = std::fs::remove_file(&copy);
+                es.push((rel, Some(notify)));
+            }
+            l.rrdp_auth.push((name, es));
+        }
+    }
     l
 }
 
@@ -205,9 +236,21 @@ fn fs_coq(l: &Listing, names: &mut Intern, t0_ms: i64) -> String {
             }
         }
     }
-    // the RRDP collector directory is not used in these runs; anything found there is listed as stray files
+    // the RRDP collector's directory
     let mut corr = Vec::new();
     for rel in &l.rrdp { corr.push(format!("RRFile {}", n(names.id(&format!("file:{}", rel))))); }
+    if let Some(t) = &l.rrdp_tmp { corr.push(format!("RRTmp {}", list_of(t.iter().map(|rel| n(names.id(&format!("file:{}", rel)))).collect()))); }
+    for (auth, es) in &l.rrdp_auth {
+        let mut v = Vec::new();
+        for (rel, e) in es {
+            let id = n(names.id(&format!("file:{}", rel)));
+            match e {
+                None => v.push(format!("StrayDir {}", id)),
+                Some(notify) => v.push(format!("Archive {} {}", id, coq_opt(notify.as_ref().map(|s| n(names.id(&format!("notify:{}", s))))))),
+            }
+        }
+        corr.push(format!("RRAuth {} {}", n(names.id(&format!("name:{}", auth))), list_of(v)));
+    }
     format!("{{| st_ta := {}; st_rrdp := {}; st_rsync := {}; st_tmp := {}; co_rsync := {}; co_rrdp := {} |}}",
             list_of(ta), rrdp, rsync, list_of(tmp), list_of(co), list_of(corr))
 }
@@ -216,7 +259,8 @@ fn listing_json(l: &Listing) -> Value {
     json!({
         "store_rsync": l.store_rsync.iter().map(|(r, p)| json!([r, p.as_ref().map(|p| json!({"manifest_not_after": p.not_after, "success": p.success, "status": p.status_secs, "notify": p.notify}))])).collect::<Vec<_>>(),
         "store_rrdp": l.store_rrdp.iter().map(|(r, p)| json!([r, p.is_some()])).collect::<Vec<_>>(),
-        "ta": l.ta, "tmp": l.tmp, "rsync": l.rsync, "rrdp": l.rrdp,
+        "ta": l.ta, "tmp": l.tmp, "rsync": l.rsync, "rrdp": l.rrdp, "rrdp_tmp": l.rrdp_tmp,
+        "rrdp_auth": l.rrdp_auth.iter().map(|(a, es)| json!([a, es.iter().map(|(r, e)| json!([r, e])).collect::<Vec<_>>()])).collect::<Vec<_>>(),
     })
 }
 
@@ -301,6 +345,19 @@ fn apply_tamper(world: &World, t: &Tamper) {
                 let _ = std::fs::remove_file(&path);
             }
         }
+        Tamper::PlantArchive { notify, expired } => {
+            let uri = uri::Https::from_str(notify).expect("https uri");
+            let mut config = world.config(&RunCfg::default());
+            config.disable_rrdp = false;
+            let path = config.verif_rrdp_repository_path(&uri).expect("archive path");
+            if let Some(d) = path.parent() { std::fs::create_dir_all(d).unwrap(); }
+            let now = chrono::Utc::now().timestamp();
+            let state = routinator::collector::RrdpArchive::verif_state_new(
+                uri, uuid::Uuid::from_u128(0xa1a2a3a4b1b2c1c2d1d2d3d4d5d6d7d8u128), 7, now - 7200,
+                if *expired { now - 3600 } else { now + 3600 }, None, None, Default::default());
+            let mut a = routinator::collector::RrdpArchive::create(std::sync::Arc::new(path)).ok().expect("create archive");
+            a.publish_state(&state).ok().expect("publish_state");
+        }
         Tamper::SleepUntil { secs } => {
             let target = world.built.now + 3600 + secs;
             loop {
@@ -331,7 +388,8 @@ fn engine_for(world: &World, last: &Last) -> (routinator::config::Config, Result
     routinator::verif::set_forced("rpkigen.inprocess_rsync", vec![if rsync_mode() == RsyncMode::InProcess { 1 } else { 0 }]);
     let _ = std::fs::remove_file(world.dir.join("fetch.log"));
     let cfg = RunCfg { dirty: last.dirty, no_update: last.no_update, ..RunCfg::default() };
-    let config = world.config(&cfg);
+    let mut config = world.config(&cfg);
+    if last.rrdp { config.disable_rrdp = false; }
     let engine = match Engine::new(&config, !last.no_update) {
         Err(_) => Err("Engine::new failed".to_string()),
         Ok(mut e) => if e.ignite().is_err() { Err("ignite failed".into()) } else { Ok(e) },
@@ -385,8 +443,9 @@ fn run_cleanup_case(input: &Value) -> CaseOut {
     let before_coq = fs_coq(&before, &mut names, t0_ms);
     let after_coq = fs_coq(&after, &mut names, t0_ms);
     let ri = format!(
-        "{{| ri_dirty := {}; ri_rsync := {}; ri_rrdp := false; ri_started := {}; ri_upd_rsync := {}; ri_upd_rrdp := [] |}}",
-        coq_bool(inp.last.dirty), coq_bool(!inp.last.no_update && !inp.last.initial), z(started_ms - t0_ms),
+        "{{| ri_dirty := {}; ri_rsync := {}; ri_rrdp := {}; ri_started := {}; ri_upd_rsync := {}; ri_upd_rrdp := [] |}}",
+        coq_bool(inp.last.dirty), coq_bool(!inp.last.no_update && !inp.last.initial),
+        coq_bool(inp.last.rrdp && !inp.last.no_update && !inp.last.initial), z(started_ms - t0_ms),
         { let mut v = Vec::new(); for (h, m) in &upd { let a = names.id(&format!("name:{}", h)); let b = names.id(&format!("name:{}", m)); v.push(format!("({}, {})", n(a), n(b))); } list_of(v) });
     let coq = format!("{{| c_ok := {}; c_ri := {}; c_before := {}; c_after := {} |}}", coq_bool(ok && !cleanup_failed), ri, before_coq, after_coq);
     let removed = before.store_rsync.len() + before.store_rrdp.len() + before.tmp.len() + before.rsync.iter().map(|r| 1 + r.1.as_ref().map(|v| v.len()).unwrap_or(0)).sum::<usize>()
@@ -467,7 +526,7 @@ fn case(class: &str, spec: &RepoSpec, back: i64, history: Vec<ServePlan>, tamper
     (class.to_string(), serde_json::to_value(Input { spec: spec.clone(), back_secs: back, history, tamper, last }).unwrap())
 }
 
-fn last(step: usize, dirty: bool) -> Last { Last { plan: ServePlan::step(step), dirty, no_update: false, initial: false } }
+fn last(step: usize, dirty: bool) -> Last { Last { plan: ServePlan::step(step), dirty, no_update: false, initial: false, rrdp: false } }
 
 fn junk_set(rng: &mut Rng) -> Vec<Tamper> {
     let mut v = vec![
@@ -509,9 +568,9 @@ fn gen(rng: &mut Rng, tier: &str) -> Vec<(String, Value)> {
             out.push(case(if dirty { "seq-dirty-expired" } else { "seq-clean-expired" }, &w, 0, vec![s0()], t, last(1, dirty)));
         }
         let mut t = all_junk.clone(); t.push(Tamper::DeletePoint { ca: "A2".into() }); t.push(Tamper::ExpirePoint { ca: "A3".into() });
-        out.push(case("seq-failed-initial", &w, 0, vec![s0()], t.clone(), Last { plan: s0(), dirty: false, no_update: false, initial: true }));
-        out.push(case("seq-failed-initial-dirty", &w, 0, vec![s0()], t, Last { plan: s0(), dirty: true, no_update: false, initial: true }));
-        out.push(case("seq-ok-initial", &w, 0, vec![s0()], all_junk.clone(), Last { plan: s0(), dirty: false, no_update: false, initial: true }));
+        out.push(case("seq-failed-initial", &w, 0, vec![s0()], t.clone(), Last { plan: s0(), dirty: false, no_update: false, initial: true, rrdp: false }));
+        out.push(case("seq-failed-initial-dirty", &w, 0, vec![s0()], t, Last { plan: s0(), dirty: true, no_update: false, initial: true, rrdp: false }));
+        out.push(case("seq-ok-initial", &w, 0, vec![s0()], all_junk.clone(), Last { plan: s0(), dirty: false, no_update: false, initial: true, rrdp: false }));
         let n = if thorough { 30 } else { 6 };
         for _ in 0..n {
             let mut t = junk_set(rng);
@@ -520,7 +579,7 @@ fn gen(rng: &mut Rng, tier: &str) -> Vec<(String, Value)> {
             if fail { t.push(Tamper::DeletePoint { ca: rng.pick(&["A2", "A3", "B"]).to_string() }); }
             let dirty = !fail || rng.chance(1, 2);
             out.push(case(if fail { "seq-random-failed" } else { "seq-random-dirty" }, &w, 0, vec![s0()], t,
-                          Last { plan: s0(), dirty, no_update: false, initial: fail }));
+                          Last { plan: s0(), dirty, no_update: false, initial: fail, rrdp: false }));
         }
         return out
     }
@@ -567,21 +626,40 @@ fn gen(rng: &mut Rng, tier: &str) -> Vec<(String, Value)> {
     for m in [R3, R4, R2] {
         let plan = ServePlan::step(1).unreachable(&format!("{}/{}", m.0, m.1));
         out.push(case("unreachable", &w, 0, vec![s0()], vec![Tamper::ExpirePoint { ca: "A1".into() }],
-                      Last { plan, dirty: false, no_update: false, initial: false }));
+                      Last { plan, dirty: false, no_update: false, initial: false, rrdp: false }));
     }
     // no collector: the collector's directory is left alone whatever the store says
     out.push(case("no-update", &w, 0, vec![s0()], vec![Tamper::ExpirePoint { ca: "A1".into() }, Tamper::ExpirePoint { ca: "A3".into() }, Tamper::JunkRsync { rel: "stray-file".into(), dir: false }],
-                  Last { plan: ServePlan::step(1), dirty: false, no_update: true, initial: false }));
+                  Last { plan: ServePlan::step(1), dirty: false, no_update: true, initial: false, rrdp: false }));
     // failed run (quick initial validation meets a point that is not in the store): no cleanup
     out.push(case("failed-initial", &w, 0, vec![s0()], { let mut t = all_junk.clone(); t.push(Tamper::DeletePoint { ca: "A2".into() }); t.push(Tamper::ExpirePoint { ca: "A3".into() }); t },
-                  Last { plan: s0(), dirty: false, no_update: false, initial: true }));
+                  Last { plan: s0(), dirty: false, no_update: false, initial: true, rrdp: false }));
     out.push(case("ok-initial", &w, 0, vec![s0()], vec![Tamper::ExpirePoint { ca: "A3".into() }, Tamper::Tmp { name: "t".into() }],
-                  Last { plan: s0(), dirty: false, no_update: false, initial: true }));
+                  Last { plan: s0(), dirty: false, no_update: false, initial: true, rrdp: false }));
     // a stored point in the RRDP tree keeps its RRDP repository, not its rsync module
     for (cls, extra) in [("rrdp-tree-point", vec![]), ("rrdp-tree-point-expired", vec![Tamper::ExpirePoint { ca: "A1".into() }])] {
         let mut t = extra;
         t.push(Tamper::ToRrdpTree { ca: "A1".into(), notify: "https://rrdp.alpha.example/notification.xml".into() });
         out.push(case(cls, &w, 0, vec![s0()], t, last(1, false)));
+    }
+    // RRDP archives in the collector's directory (the RRDP transport is enabled; no CA announces RRDP, so the
+    // collector fetches nothing and only takes part in the cleanup): the archive of the repository that a stored point
+    // in the RRDP tree names survives - also past its best-before time -, an archive nobody names goes
+    for expired in [false, true] {
+        for point_expired in [false, true] {
+            let mut t = vec![];
+            if point_expired { t.push(Tamper::ExpirePoint { ca: "A1".into() }); }
+            t.push(Tamper::ToRrdpTree { ca: "A1".into(), notify: "https://rrdp.alpha.example/notification.xml".into() });
+            t.push(Tamper::PlantArchive { notify: "https://rrdp.alpha.example/notification.xml".into(), expired });
+            t.push(Tamper::PlantArchive { notify: "https://rrdp.other.example/n.xml".into(), expired: false });
+            t.push(Tamper::PlantArchive { notify: "https://rrdp.alpha.example/unused/notification.xml".into(), expired });
+            let cls = format!("rrdp-archives{}{}", if expired { "-stale" } else { "" }, if point_expired { "-point-expired" } else { "" });
+            out.push(case(&cls, &w, 0, vec![s0()], t.clone(), Last { plan: ServePlan::step(1), dirty: false, no_update: false, initial: false, rrdp: true }));
+            if !expired && !point_expired {
+                out.push(case("rrdp-archives-dirty", &w, 0, vec![s0()], t.clone(), Last { plan: ServePlan::step(1), dirty: true, no_update: false, initial: false, rrdp: true }));
+                out.push(case("rrdp-archives-transport-off", &w, 0, vec![s0()], t, Last { plan: ServePlan::step(1), dirty: false, no_update: false, initial: false, rrdp: false }));
+            }
+        }
     }
     // the CA moved: after two more runs everything of the old location that expired is gone, the new one stays
     out.push(case("moved-later", &w, 0, vec![s0(), ServePlan::step(1)], vec![Tamper::ExpirePoint { ca: "A1".into() }], last(1, false)));
@@ -609,7 +687,7 @@ fn gen(rng: &mut Rng, tier: &str) -> Vec<(String, Value)> {
         let dirty = rng.chance(1, 5);
         let no_update = rng.chance(1, 8);
         out.push(case(if dirty { "random-dirty" } else if no_update { "random-no-update" } else { "random" }, &w, 0, history, t,
-                      Last { plan, dirty, no_update, initial: false }));
+                      Last { plan, dirty, no_update, initial: false, rrdp: false }));
     }
     out
 }
